@@ -114,6 +114,9 @@ func vpChunkEncode(t *rapid.T, body []byte, sabotage string) []byte {
 				size = fmt.Sprintf("1%016x", n)
 			case "chunk-size-wrap-long":
 				size = fmt.Sprintf("%s%031x", rapid.SampledFrom([]string{"7", "1", "f", "8"}).Draw(t, "wraplead"), n)
+			case "chunk-size-16hex":
+				// exactly one digit more than the 64-bit limit of 15: top bit set -> negative / huge int
+				size = rapid.SampledFrom([]string{"8000000000000000", "ffffffffffffffff", "7fffffffffffffff", "8000000000000005", "f000000000000001"}).Draw(t, "hex16")
 			case "chunk-size-neg":
 				size = "-" + size
 			case "chunk-size-plus":
@@ -166,7 +169,7 @@ func vpChunkEncode(t *rapid.T, body []byte, sabotage string) []byte {
 }
 
 var vpChunkSabotages = []string{
-	"chunk-size-barelf", "chunk-ext-lf", "chunk-size-0x", "chunk-size-huge", "chunk-size-wrap64", "chunk-size-wrap-long", "chunk-size-wrap64", "chunk-size-neg", "chunk-size-plus",
+	"chunk-size-barelf", "chunk-ext-lf", "chunk-size-0x", "chunk-size-huge", "chunk-size-16hex", "chunk-size-16hex", "chunk-size-wrap64", "chunk-size-wrap-long", "chunk-size-wrap64", "chunk-size-neg", "chunk-size-plus",
 	"chunk-data-nocrlf", "chunk-data-lf", "chunk-data-xx", "chunk-size-ws-ext", "chunk-size-trailing-ws",
 	"chunk-size-empty", "chunk-size-space-inside", "lastchunk-ext", "lastchunk-000", "trailer", "trailer-forbidden",
 	"trailer-nocolon", "trailer-barelf",
